@@ -12,15 +12,17 @@ for sid in sorted(k for k in res if k != "unchanged"):
         continue
     meta = json.load(open(os.path.join(VERIF, "seeded", sid, "meta.json")))
     tgt = r["target"]
-    inp = sorted(p for p, v in r["checks"].items() if v[0] != 0 and v[1].startswith("input"))
-    noi = sorted(p for p, v in r["checks"].items() if v[0] != 0 and not v[1].startswith("input"))
+    inp = sorted(p for p, v in r["checks"].items() if v[0] != 0 and v[1].startswith("input") and p != tgt[:3])
+    noi = sorted(p for p, v in r["checks"].items() if v[0] != 0 and not v[1].startswith("input") and p != tgt[:3])
+    partial = len(r["checks"]) < 10
     own = r["checks"].get(tgt, [0, "-"])
     ownv = "yes, with input" if own[0] and own[1].startswith("input") else ("yes, no-input" if own[0] else ("n/a" if tgt.startswith("none") else "NO"))
     what = meta["summary"].split(". ")[0][:150].replace("|", "/")
-    rows.append("| %s | %s | %s | %s | %s | %s |" % (sid, tgt[:4], what, ownv, " ".join(inp) or "-", " ".join(noi) or "-"))
+    rows.append("| %s | %s | %s | %s | %s | %s |" % (sid, tgt[:4], what, ownv, "(own check only)" if partial else (" ".join(inp) or "-"),
+                                                     "" if partial else (" ".join(noi) or "-")))
 print("| change | target | what it does (first sentence of its meta.json) | caught by its own check | other checks with a failing input | checks with `no-failing-input-found` |")
 print("|---|---|---|---|---|---|")
 print("\n".join(rows))
 u = res.get("unchanged")
-if u:
+if u and len(u):
     print("\nUnchanged tree: " + ("no check raises an alarm." if all(v[0] == 0 for v in u.values()) else "ALARMS: %s" % u))
